@@ -405,10 +405,75 @@ fn opt<T: QLike>(r: Option<Result<T, String>>) -> Res {
     }
 }
 
+// ---------------------------------------------------------------- C18: rational approximation
+
+fn p_r(s: &str) -> Result<RBig, String> {
+    match p_q(s)? {
+        Val::R(r) => Ok(r),
+        Val::X(_) => Err("bad-arg RBig expected".into()),
+    }
+}
+
+fn p_bits(s: &str, n: usize) -> Result<u64, String> {
+    let b = s.strip_prefix("x:").ok_or_else(|| format!("bad-arg bits {}", s))?;
+    if b.len() != n {
+        return Err(format!("bad-arg bits {}", s));
+    }
+    u64::from_str_radix(b, 16).map_err(|_| format!("bad-arg bits {}", s))
+}
+
+fn show_approx(a: dashu_base::Approximation<RBig, Sign>) -> String {
+    match a {
+        dashu_base::Approximation::Exact(v) => format!("exact {}", v.show()),
+        dashu_base::Approximation::Inexact(v, s) => format!("inexact {} {}", v.show(), f_sign(s)),
+    }
+}
+
+fn simplify(o: &str, args: &[&str]) -> Res {
+    match o {
+        "in" => {
+            let a = p_r(arg(args, 0)?)?;
+            let b = p_r(arg(args, 1)?)?;
+            catch(|| RBig::simplest_in(a.clone(), b.clone())).map(|v| v.show())
+        }
+        "simpler" => {
+            let a = p_r(arg(args, 0)?)?;
+            let b = p_r(arg(args, 1)?)?;
+            catch(|| a.is_simpler_than(&b)).map(|v| v.to_string())
+        }
+        "nextup" | "nextdown" | "nearest" => {
+            let a = p_r(arg(args, 0)?)?;
+            let lim = match p_z(arg(args, 1)?)? {
+                Z::U(u) => u,
+                Z::I(_) => return Err("bad-arg limit must be u:".into()),
+            };
+            match o {
+                "nextup" => catch(|| a.next_up(&lim)).map(|v| v.show()),
+                "nextdown" => catch(|| a.next_down(&lim)).map(|v| v.show()),
+                _ => catch(|| a.nearest(&lim)).map(show_approx),
+            }
+        }
+        "fromf32" => {
+            let f = f32::from_bits(p_bits(arg(args, 0)?, 8)? as u32);
+            catch(|| RBig::simplest_from_f32(f))
+                .map(|v| v.map(|r| r.show()).unwrap_or_else(|| "none".into()))
+        }
+        "fromf64" => {
+            let f = f64::from_bits(p_bits(arg(args, 0)?, 16)?);
+            catch(|| RBig::simplest_from_f64(f))
+                .map(|v| v.map(|r| r.show()).unwrap_or_else(|| "none".into()))
+        }
+        _ => Err("__none__".into()),
+    }
+}
+
 pub fn dispatch(op: &str, args: &[&str]) -> Option<Res> {
     let r: Res = (|| -> Res {
         if op == "prog" {
             return prog(args);
+        }
+        if let Some(o) = op.strip_prefix("s.") {
+            return simplify(o, args);
         }
         if let Some(o) = op.strip_prefix("q.") {
             match o {
